@@ -55,8 +55,10 @@ RULE = ("rv: 2-6 forms from all 12 templates, each optional template member pres
         "non-trivial = a history with an accepted call after a rejected one, or a ui whose target has a group, dependency or optional member")
 LEVEL_TEXT = ("Proved for all ui.json dictionaries with any number of parameters and group members: requires_value (PyLite translation of the "
               "source) is total on well-formed dictionaries and equals the group > dependency > optional hierarchy; the validator chain "
-              "accepts iff every declared constraint holds; EnforcerPool / Parameter / validate_data verdicts do not depend on the call "
-              "history and a rejected value leaves the stored value and rule table unchanged (for the repaired code; the pre-repair "
+              "accepts iff every declared constraint holds, and validate_data on at-least-one rules accepts iff every group has a member "
+              "that is not None; for the EnforcerPool / Parameter / validate_data models, whose state (_errors, stored value, rule table) "
+              "is threaded explicitly through call histories, verdicts do not depend on the history (for the pool: on any left-over "
+              "_errors) and a rejected value leaves the stored value and rule table unchanged (repaired code; the pre-repair "
               "transcriptions are refuted by concrete histories). Tie: translator regenerated on every run + correspondence of every "
               "translated function and of call histories on the real objects.")
 TECHNIQUE = "Coq proof over PyLite-translated source + hand models, tied by differential execution in vm_compute"
